@@ -276,4 +276,232 @@ theorem mul_reduce_val (z0 z1 z2 : BitVec 64) :
   generalize z2.toNat * p = X at *
   generalize z2.toNat * c = Y at *
   omega
+
+/-! ## composition: `mul` -/
+
+theorem beq_one_iff (x : BitVec 64) : ((x == 1#64) = true) ↔ x.toNat = 1 := by
+  rw [beq_iff_eq]
+  constructor
+  · intro h; rw [h]; rfl
+  · intro h; exact BitVec.eq_of_toNat_eq (by rw [h]; rfl)
+
+/-- first conditional subtraction in `mul`: a value below 2^128 + 2^64·c is brought below 2^128 -/
+theorem condsub_hi (u : BitVec 64 × BitVec 64 × BitVec 64) (t w : BitVec 64 × BitVec 64)
+    (ht : sub_modulus u.1 u.2.1 = t)
+    (hw : (if (u.2.2 == 1#64) = true then (t.1, t.2) else (u.1, u.2.1)) = w)
+    (hb : v3 u < 2 ^ 128 + 2 ^ 64 * c) :
+    v2 w + u.2.2.toNat * p = v3 u := by
+  have hs := sub_modulus_spec u.1 u.2.1
+  rw [ht] at hs
+  have h0 := u.1.isLt; have h1 := u.2.1.isLt; have h2 := u.2.2.isLt
+  unfold v3 at hb ⊢
+  unfold v2 at hs ⊢
+  simp only [c, p] at *
+  by_cases hc : (u.2.2 == 1#64) = true
+  · rw [if_pos hc] at hw
+    have e := (beq_one_iff _).mp hc
+    rw [← hw]; simp only []
+    omega
+  · rw [if_neg hc] at hw
+    have e : u.2.2.toNat ≠ 1 := fun h => hc ((beq_one_iff _).mpr h)
+    rw [← hw]; simp only []
+    omega
+/-- second conditional subtraction in `mul` (after y + (x << 64)): overflow beyond 192 bits is
+    removed by subtracting p·2^64; needs the 192-bit addend y ≤ (p−1)(2^64−1), i.e. a < p -/
+theorem condsub_mid (y : BitVec 64 × BitVec 64 × BitVec 64) (w s1 s2 tt y' : BitVec 64 × BitVec 64)
+    (hs1 : v2 s1 = y.2.1.toNat + w.1.toNat + (0#64).toNat)
+    (hs2 : v2 s2 = y.2.2.toNat + w.2.toNat + s1.2.toNat)
+    (htt : sub_modulus s1.1 s2.1 = tt)
+    (hy' : (if (s2.2 == 1#64) = true then (tt.1, tt.2) else (s1.1, s2.1)) = y')
+    (hb : v3 y ≤ (p - 1) * (2 ^ 64 - 1)) :
+    y.1.toNat + 2 ^ 64 * v2 y' + s2.2.toNat * (2 ^ 64 * p) = v3 y + 2 ^ 64 * v2 w := by
+  have hs := sub_modulus_spec s1.1 s2.1
+  rw [htt] at hs
+  have h0 := y.1.isLt; have h1 := y.2.1.isLt; have h2 := y.2.2.isLt
+  have h3 := w.1.isLt; have h4 := w.2.isLt
+  have h5 := s1.1.isLt; have h6 := s1.2.isLt; have h7 := s2.1.isLt; have h8 := s2.2.isLt
+  have hz : (0#64).toNat = 0 := rfl
+  rw [hz] at hs1
+  unfold v3 at hb ⊢
+  unfold v2 at hs hs1 hs2 ⊢
+  simp only [c, p] at *
+  by_cases hc : (s2.2 == 1#64) = true
+  · rw [if_pos hc] at hy'
+    have e := (beq_one_iff _).mp hc
+    rw [← hy']; simp only []
+    omega
+  · rw [if_neg hc] at hy'
+    have e : s2.2.toNat ≠ 1 := fun h => hc ((beq_one_iff _).mpr h)
+    rw [← hy']; simp only []
+    omega
+/-- the final conditional subtraction: any value below 2^128 + 2^64·c ends up canonical -/
+theorem condsub_final (z : BitVec 64 × BitVec 64 × BitVec 64) (t z' : BitVec 64 × BitVec 64)
+    (ht : sub_modulus z.1 z.2.1 = t)
+    (hz' : (if (z.2.2 == 1#64 || z.2.1 == BitVec.setWidth 64 (M >>> 64) &&
+        (BitVec.setWidth 64 M).ule z.1) = true then (t.1, t.2) else (z.1, z.2.1)) = z')
+    (hb : v3 z < 2 ^ 128 + 2 ^ 64 * c) :
+    v2 z' < p ∧ ∃ k, v2 z' + k * p = v3 z := by
+  have hs := sub_modulus_spec z.1 z.2.1
+  rw [ht] at hs
+  rw [final_cond_bv] at hz'
+  have hule : (BitVec.ule M (w2 z.1 z.2.1) = true) ↔ p ≤ v2 (z.1, z.2.1) := by
+    rw [BitVec.ule_eq_decide, decide_eq_true_iff, M_toNat, w2_toNat]
+  have h0 := z.1.isLt; have h1 := z.2.1.isLt; have h2 := z.2.2.isLt
+  unfold v3 at hb ⊢
+  unfold v2 at hs hule ⊢
+  simp only [c, p] at *
+  by_cases hc1 : (z.2.2 == 1#64) = true
+  · have e := (beq_one_iff _).mp hc1
+    rw [hc1, Bool.true_or, if_pos rfl] at hz'
+    rw [← hz']; simp only []
+    exact ⟨by omega, 1, by omega⟩
+  · have e : z.2.2.toNat ≠ 1 := fun h => hc1 ((beq_one_iff _).mpr h)
+    have hf : (z.2.2 == 1#64) = false := by simpa using hc1
+    rw [hf, Bool.false_or] at hz'
+    by_cases hc2 : BitVec.ule M (w2 z.1 z.2.1) = true
+    · have e2 := hule.mp hc2
+      rw [if_pos hc2] at hz'
+      rw [← hz']; simp only []
+      exact ⟨by omega, 1, by omega⟩
+    · have e2 : ¬ _ := fun h => hc2 (hule.mpr h)
+      rw [if_neg hc2] at hz'
+      rw [← hz']; simp only []
+      exact ⟨by omega, 0, by omega⟩
+
+/-- the tuple matchers of the generated code, as projections (propositional, proved on constructors) -/
+theorem match3' {α : Sort u} (e : BitVec 64 × BitVec 64 × BitVec 64)
+    (alt : BitVec 64 → BitVec 64 → BitVec 64 → α) :
+    mul_reduce.match_1 (fun _ => α) e alt = alt e.1 e.2.1 e.2.2 := by
+  obtain ⟨x, y, z⟩ := e; rfl
+theorem match2' {α : Sort u} (e : BitVec 64 × BitVec 64) (alt : BitVec 64 → BitVec 64 → α) :
+    mul.match_1 (fun _ => α) e alt = alt e.1 e.2 := by
+  obtain ⟨x, y⟩ := e; rfl
+
+theorem split_hi_lo (b : BitVec 128) :
+    b.toNat = (BitVec.setWidth 64 b).toNat + 2 ^ 64 * (BitVec.setWidth 64 (b >>> 64)).toNat := by
+  simp only [BitVec.toNat_setWidth, BitVec.toNat_ushiftRight, Nat.shiftRight_eq_div_pow]
+  have := b.isLt; omega
+
+/-- final arithmetic of `mul`: chaining the six value equations -/
+theorem mul_chain (R k P1 P2 AB x2 u2 y0 y'1 y'2 s22 vx vu vw vy vy' vz q : Nat)
+    (hx : vx = P1) (hu' : vu + x2 * q = vx) (hw : vw + u2 * q = vu) (hy : vy = P2)
+    (hmid : y0 + 2 ^ 64 * vy' + s22 * (2 ^ 64 * q) = vy + 2 ^ 64 * vw)
+    (hy' : vy' = y'1 + 2 ^ 64 * y'2)
+    (hz' : vz + y'2 * q = y0 + 2 ^ 64 * y'1 + 2 ^ 128 * y'2)
+    (hk : R + k * q = vz) (hAB : AB = P2 + 2 ^ 64 * P1) :
+    R + (k + y'2 + s22 * 2 ^ 64 + 2 ^ 64 * (u2 + x2)) * q = AB := by
+  have e : (k + y'2 + s22 * 2 ^ 64 + 2 ^ 64 * (u2 + x2)) * q
+      = k * q + y'2 * q + 2 ^ 64 * (s22 * q) + (2 ^ 64 * (u2 * q) + 2 ^ 64 * (x2 * q)) := by
+    rw [Nat.add_mul, Nat.add_mul, Nat.add_mul, Nat.mul_assoc (2 ^ 64), Nat.add_mul, Nat.mul_add,
+      Nat.mul_right_comm s22, Nat.mul_comm (s22 * q)]
+  have e2 : s22 * (2 ^ 64 * q) = 2 ^ 64 * (s22 * q) := Nat.mul_left_comm _ _ _
+  rw [e]; rw [e2] at hmid
+  generalize k * q = kq at *
+  generalize y'2 * q = yq at *
+  generalize s22 * q = sq at *
+  generalize u2 * q = uq at *
+  generalize x2 * q = xq at *
+  omega
+
+
+theorem mul_reduce_spec' (z0 z1 z2 : BitVec 64) :
+    v3 (mul_reduce z0 z1 z2) + z2.toNat * p
+      = z0.toNat + 2 ^ 64 * z1.toNat + 2 ^ 128 * z2.toNat := by
+  have h := mul_reduce_spec z0 z1 z2
+  generalize v3 (mul_reduce z0 z1 z2) = r at h ⊢
+  unfold v3 at h; simp only [] at h
+  exact h
+
+/-- `mul` with every intermediate result named: the value reasoning (all variables universally
+    quantified, so the kernel checks it on variables only) -/
+theorem mul_core (a b : BitVec 128) (ha : Rep a)
+    (x u : BitVec 64 × BitVec 64 × BitVec 64) (t w : BitVec 64 × BitVec 64)
+    (y : BitVec 64 × BitVec 64 × BitVec 64) (s1 s2 tt y' : BitVec 64 × BitVec 64)
+    (z : BitVec 64 × BitVec 64 × BitVec 64) (t3 z' : BitVec 64 × BitVec 64)
+    (hxe : mul_128x64 a (BitVec.setWidth 64 (b >>> 64)) = x)
+    (hue : mul_reduce x.1 x.2.1 x.2.2 = u)
+    (hte : sub_modulus u.1 u.2.1 = t)
+    (hwe : (if (u.2.2 == 1#64) = true then (t.1, t.2) else (u.1, u.2.1)) = w)
+    (hye : mul_128x64 a (BitVec.setWidth 64 b) = y)
+    (hs1e : add64_with_carry y.2.1 w.1 0#64 = s1)
+    (hs2e : add64_with_carry y.2.2 w.2 s1.2 = s2)
+    (htte : sub_modulus s1.1 s2.1 = tt)
+    (hy'e : (if (s2.2 == 1#64) = true then (tt.1, tt.2) else (s1.1, s2.1)) = y')
+    (hze : mul_reduce y.1 y'.1 y'.2 = z)
+    (ht3e : sub_modulus z.1 z.2.1 = t3)
+    (hz'e : (if (z.2.2 == 1#64 || z.2.1 == BitVec.setWidth 64 (M >>> 64) &&
+        (BitVec.setWidth 64 M).ule z.1) = true then (t3.1, t3.2) else (z.1, z.2.1)) = z') :
+    Rep (BitVec.setWidth 128 z'.2 <<< 64 + BitVec.setWidth 128 z'.1) ∧
+      (BitVec.setWidth 128 z'.2 <<< 64 + BitVec.setWidth 128 z'.1).toNat = a.toNat * b.toNat % p := by
+  -- values
+  have hx := mul_128x64_spec a (BitVec.setWidth 64 (b >>> 64)); rw [hxe] at hx
+  unfold v3 at hx
+  have hu := mul_reduce_val x.1 x.2.1 x.2.2; rw [hue] at hu
+  have hu' := mul_reduce_spec' x.1 x.2.1 x.2.2; rw [hue] at hu'
+  have hub : v3 u < 2 ^ 128 + 2 ^ 64 * c := by
+    rw [hu]
+    have := x.1.isLt; have := x.2.1.isLt; have := x.2.2.isLt
+    simp only [c]; omega
+  have hw := condsub_hi u t w hte hwe hub
+  have hy := mul_128x64_spec a (BitVec.setWidth 64 b); rw [hye] at hy
+  have hyb : v3 y ≤ (p - 1) * (2 ^ 64 - 1) := by
+    rw [hy]
+    have h1 := (rep_iff a).mp ha
+    have h2 := (BitVec.setWidth 64 b).isLt
+    exact Nat.mul_le_mul (by omega) (by omega)
+  have hs1 := add64_with_carry_spec y.2.1 w.1 0#64; rw [hs1e] at hs1
+  have hs2 := add64_with_carry_spec y.2.2 w.2 s1.2; rw [hs2e] at hs2
+  have hmid := condsub_mid y w s1 s2 tt y' hs1 hs2 htte hy'e hyb
+  have hz := mul_reduce_val y.1 y'.1 y'.2; rw [hze] at hz
+  have hz' := mul_reduce_spec' y.1 y'.1 y'.2; rw [hze] at hz'
+  have hzb : v3 z < 2 ^ 128 + 2 ^ 64 * c := by
+    rw [hz]
+    have := y.1.isLt; have := y'.1.isLt; have := y'.2.isLt
+    simp only [c]; omega
+  obtain ⟨hR, k, hk⟩ := condsub_final z t3 z' ht3e hz'e hzb
+  rw [glue_bv, rep_iff, w2_toNat]
+  have hAB : a.toNat * b.toNat = a.toNat * (BitVec.setWidth 64 b).toNat
+      + 2 ^ 64 * (a.toNat * (BitVec.setWidth 64 (b >>> 64)).toNat) := by
+    rw [Nat.mul_left_comm, ← Nat.mul_add, ← split_hi_lo]
+  have hfin := mul_chain (v2 z') k _ _ _ x.2.2.toNat u.2.2.toNat y.1.toNat y'.1.toNat y'.2.toNat
+    s2.2.toNat _ (v3 u) (v2 w) (v3 y) (v2 y') (v3 z) p hx hu' hw hy hmid rfl hz' hk hAB
+  exact ⟨hR, eq_mod_of _ _ _ hR hfin⟩
+
+/-- multiplication: for a reduced first operand and ANY 128-bit second operand the result is
+    reduced and equals a·b mod p -/
+theorem mul_spec_gen (a b : BitVec 128) (ha : Rep a) :
+    Rep (mul a b) ∧ (mul a b).toNat = a.toNat * b.toNat % p := by
+  have h : mul = mul := rfl
+  conv at h => rhs; delta mul
+  have h2 := congrFun (congrFun h a) b
+  simp -iota -proj only [match3', match2'] at h2
+  rw [h2]
+  exact mul_core a b ha _ _ _ _ _ _ _ _ _ _ _ _ rfl rfl rfl rfl rfl rfl rfl rfl rfl rfl rfl rfl
+
+theorem mul_spec (a b : BitVec 128) (ha : Rep a) (_hb : Rep b) :
+    Rep (mul a b) ∧ (mul a b).toNat = a.toNat * b.toNat % p := mul_spec_gen a b ha
+
+/-! ## corollaries used by the property file -/
+
+theorem c_def : c = 2 ^ 128 - p := by decide
+
+theorem sub_modulus_ge (lo hi : BitVec 64) (h : p ≤ v2 (lo, hi)) :
+    v2 (sub_modulus lo hi) + p = v2 (lo, hi) := by
+  rw [sub_modulus_spec]
+  have := v2_lt (lo, hi)
+  have hp : p = 340282366920938463463374557953744961537 := rfl
+  have hc : c = 49478023249919 := rfl
+  omega
+
+theorem mul_reduce_lt (z0 z1 z2 : BitVec 64) :
+    v3 (mul_reduce z0 z1 z2) < 2 ^ 128 + 2 ^ 64 * c := by
+  rw [mul_reduce_val]
+  have := z0.isLt; have := z1.isLt; have := z2.isLt
+  simp only [c]; omega
+
+theorem final_cond_iff (z0 z1 : BitVec 64) :
+    ((z1 == (BitVec.setWidth 64 (M >>> 64))) && (BitVec.ule (BitVec.setWidth 64 M) z0)) = true
+      ↔ p ≤ v2 (z0, z1) := by
+  rw [final_cond_bv, BitVec.ule_eq_decide, decide_eq_true_iff, M_toNat, w2_toNat]
+
 end Wf.F128
